@@ -105,6 +105,14 @@ class Seams:
             'gc_defaults': None,
         }
         t_client.reactor = reactor
+        # any other txdbus module that has come to use the global reactor gets the simulated one too
+        self.saved['other_reactors'] = []
+        import sys as _sys
+        for name, mod in sorted(_sys.modules.items()):
+            if name.startswith('txdbus.') and mod is not None and mod is not t_client \
+                    and getattr(mod, 'reactor', None) is not None:
+                self.saved['other_reactors'].append((mod, mod.reactor))
+                mod.reactor = reactor
         t_bus.os = _OsShim(self)
         t_auth.os = _OsShim(self)
         t_auth.time = _TimeShim(self)
@@ -131,6 +139,8 @@ class Seams:
         self._restore_home()
         txlog.removeObserver(self._observe)
         t_client.reactor = self.saved['reactor']
+        for mod, r in self.saved.get('other_reactors', []):
+            mod.reactor = r
         if self.saved['serial'] is not None:
             t_msg.DBusMessage._nextSerial = self.saved['serial']
         if self.saved['known'] is not None:
